@@ -36,6 +36,10 @@ impl ResolvedCalendarFields {
     ) -> TemporalResult<Self> {
         let era_year = EraYear::try_from_partial_date(partial_date)?;
         if partial_date.calendar.is_iso() {
+            if era_year.arithmetic_year.is_some_and(|year| year != era_year.year) {
+                return Err(TemporalError::range()
+                    .with_message("year does not agree with era and eraYear."));
+            }
             // A year outside of the supported range can never resolve to a valid date.
             if !(-271_821..=275_760).contains(&era_year.year) {
                 return Err(TemporalError::range().with_message("year is not in a valid range."));
@@ -86,6 +90,9 @@ pub struct Era(pub(crate) TinyAsciiStr<16>);
 pub struct EraYear {
     pub(crate) era: Era,
     pub(crate) year: i32,
+    /// The `year` field when it was given next to `era` and `eraYear`: the resolved
+    /// date must have this arithmetic year.
+    pub(crate) arithmetic_year: Option<i32>,
 }
 
 impl EraYear {
@@ -99,9 +106,10 @@ impl EraYear {
                 Ok(Self {
                     era: Era(era.name),
                     year,
+                    arithmetic_year: None,
                 })
             }
-            (None, Some(era), Some(era_year)) => {
+            (arithmetic_year, Some(era), Some(era_year)) => {
                 let Some(era_info) = partial.calendar.get_era_info(&era) else {
                     return Err(TemporalError::range().with_message("Invalid era provided."));
                 };
@@ -114,6 +122,7 @@ impl EraYear {
                 Ok(Self {
                     year: era_year,
                     era: Era(era_info.name),
+                    arithmetic_year,
                 })
             }
             _ => Err(TemporalError::r#type()
